@@ -113,7 +113,9 @@ _BIN = dict(
 CONTRACTS.update({
     'abacusnbody/analysis/power_spectrum.py:bin_kmu': dict(
         params={'n1d': 'int', 'L': 'opaque', 'kedges': 'arr', 'muedges': 'arr', 'weights': 'arr', 'poles': 'arr', 'dtype': 'opaque', 'fourier': 'bool', 'nthread': 'int'},
-        rank=_BIN['rank'], requires=_BIN['requires'] + [('len(muedges) >= 2', _EDGES)], cursor_reasons=_BIN['cursor_reasons']),
+        rank=_BIN['rank'], # one edge at least (np.linspace(0, 1, mubins + 1) with the public option mubins=0 has exactly one; F44): two entries are
+        # NOT a precondition, the kernel has to leave before the search when there is no mu bin
+        requires=_BIN['requires'] + [('len(muedges) >= 1', 'muedges : at least one edge (mubins = 0 gives np.linspace(0, 1, 1))')], cursor_reasons=_BIN['cursor_reasons']),
     'abacusnbody/analysis/power_spectrum.py:bin_kppi': dict(
         params={'n1d': 'int', 'L': 'opaque', 'kedges': 'arr', 'pimax': 'opaque', 'Npi': 'int', 'weights': 'arr', 'dtype': 'opaque', 'fourier': 'bool', 'nthread': 'int'},
         rank=_BIN['rank'], requires=_BIN['requires'] + [('Npi >= 1', 'Npi : "number of bins of pi"')]),
